@@ -267,6 +267,24 @@ reg('C14', 'exploration',
     '(SuperGaussian has a negative lobe); a linear field is not periodic, '
     'so order1 in periodic domains is checked on constants only.')
 
+reg('C16', 'exploration',
+    'history monitor with an exactly-once ledger: real inlet / fluid / '
+    'outlet / ghost arrays and the real update objects of each shipped '
+    'family driven for many steps by a hostile particle mover; every '
+    'particle carries a unique id, every update() call is bracketed by '
+    'snapshots and checked for which ids must have entered, left, been '
+    'recycled or deleted, with which property values, and that nothing else '
+    'changed',
+    'Held on every history explored after the fix: per quick run 120 '
+    'histories (5 families x 1-3 dimensions x axis-aligned and oblique flow '
+    'directions x zone lengths x active stage; 8-30 steps with up to 2.6 '
+    'rows crossing per step, backward movers, transverse jitter), ~9000 '
+    'update calls, thousands of entries / exits / deletions.  Found and '
+    'fixed in /repo: zone length wrong for normals that are not coordinate '
+    'axes.',
+    'Particles are kept 1e-9 clear of the zone planes; a step moves less '
+    'than a zone length; ghost arrays are kept mirror images by the mover.')
+
 _pending = {
 }
 for _i in range(1, 21):
